@@ -92,3 +92,25 @@ Example convolve_kernel_linear_nonvacuous :
   | _, _, _ => False
   end.
 Proof. vm_compute. repeat split; discriminate. Qed.
+
+(* ------------------------------------------------------------------ index-function pads only COPY data
+   pad_edges with an index-function mode commutes with every pointwise map f (not only linear ones):
+   padding f(y) gives f applied to the padding of y, and both calls are rejected together. *)
+Theorem pad_src_map (src : Z -> Z -> Z) (f : Q -> Q) (y : vec) (p : Z) :
+  match pad_edges y p (NpMode (np_src src)), pad_edges (vmap f y) p (NpMode (np_src src)) with
+  | Ok o1, Ok o => vlen o = vlen o1 /\ forall i, vget o i = f (vget o1 i)
+  | Err e1, Err e => e1 = e
+  | _, _ => False
+  end.
+Proof.
+  unfold pad_edges. destruct (p =? 0); [split; reflexivity|].
+  destruct (p <? 0); [reflexivity|]. unfold np_src, vmap; cbn [vlen vget]. split; reflexivity.
+Qed.
+
+Example pad_src_map_nonvacuous :
+  match pad_edges (of_zlist [1; 4; 9]) 2 (NpMode np_symmetric),
+        pad_edges (vmap (fun q => q * q - 3)%Q (of_zlist [1; 4; 9])) 2 (NpMode np_symmetric) with
+  | Ok o1, Ok o => vlen o = 7 /\ (vget o 0 == 13)%Q /\ (vget o1 0 == 4)%Q
+  | _, _ => False
+  end.
+Proof. vm_compute. repeat split. Qed.
